@@ -655,6 +655,26 @@ impl PeerManager {
             TokenType::OwnedInvite(owned) => {
                 OwnedInvite::delete(owned.id, &self.services.database).await?;
 
+                //the invite is used: it leaves the token table before the default room is granted (the grant can fail)
+                //the invite is registered under its own token, not under the new peer's token
+                let invite_token = MeetingSecret::derive_token(DERIVE_STRING, &owned.id);
+                let o: Option<&mut Vec<TokenType>> = self.allowed_token.get_mut(&invite_token);
+                if let Some(tokens) = o {
+                    let index = tokens.iter().position(|tt| {
+                        if let TokenType::OwnedInvite(owned_tok) = tt {
+                            owned.id.eq(&owned_tok.id)
+                        } else {
+                            false
+                        }
+                    });
+
+                    if let Some(index) = index {
+                        tokens.remove(index);
+                    }
+                }
+                self.owned_invites =
+                    OwnedInvite::list_valid(room_id.clone(), &self.services.database).await?;
+
                 if let Some(room) = owned.room {
                     if let Some(auth) = owned.authorisation {
                         let room = uid_encode(&room);
@@ -686,24 +706,6 @@ impl PeerManager {
                     }
                 }
 
-                //the invite is registered under its own token, not under the new peer's token
-                let invite_token = MeetingSecret::derive_token(DERIVE_STRING, &owned.id);
-                let o: Option<&mut Vec<TokenType>> = self.allowed_token.get_mut(&invite_token);
-                if let Some(tokens) = o {
-                    let index = tokens.iter().position(|tt| {
-                        if let TokenType::OwnedInvite(owned_tok) = tt {
-                            owned.id.eq(&owned_tok.id)
-                        } else {
-                            false
-                        }
-                    });
-
-                    if let Some(index) = index {
-                        tokens.remove(index);
-                    }
-                }
-                self.owned_invites =
-                    OwnedInvite::list_valid(room_id.clone(), &self.services.database).await?;
             }
             TokenType::Invite(invite) => {
                 let invite_token = MeetingSecret::derive_token(DERIVE_STRING, &invite.invite_id);
